@@ -293,7 +293,7 @@ func checkC10(c *Ctx, r *Report) {
 	ruleEarlyExitInventory(c, r, "C10.b", 8, "core/validators")
 	// an internal failure of validation is a failure of the command, never a quietly shorter list of diagnostics
 	ruleErrDrops(c, r, "C10.f", "core/validators", "core/pipeline")
-	ruleNoCompaction(c, r, "C10.b", "core/validators")
+	ruleNoCompaction(c, r, "C10.b", "core/validators", "core/pipeline")
 	checkDiagnosticsAppendOnly(c, r, "C10.a")
 	// every element filter in these packages is a reviewed one
 	ruleSkipInventory(c, r, "C10.b", loadSkipTable(c.VerifDir), 5, "core/validators")
